@@ -195,9 +195,14 @@ func readICCP(r binary.Reader, chunkLen uint32) ([]byte, error) {
 	}
 
 	// Extract ICCP.
-	data := make([]byte, ch.Length)
-	if _, err := io.ReadFull(r, data); err != nil {
+	// Read only as much as the stream actually provides so that the declared
+	// chunk length cannot force a huge allocation.
+	data, err := io.ReadAll(io.LimitReader(r, int64(ch.Length)))
+	if err != nil {
 		return nil, err
+	}
+	if uint32(len(data)) != ch.Length {
+		return nil, io.ErrUnexpectedEOF
 	}
 	return data, nil
 }
